@@ -66,6 +66,7 @@ func rulesC04(r *Run) {
 	r.Kind("R4", "K1")
 	m := planMachine(r, "R4")
 	ruleContJoin(r, "R4", m)
+	ruleCancelStoredBack(r, "R4")
 	ruleContChannelsMade(r, "R4")
 	r.Expect("R4", 12)
 
